@@ -185,3 +185,7 @@ func VerifC13ForgetAnswersScoped(c *Cache, q dns.Question, scope netip.Prefix) {
 		}
 	}
 }
+
+// VerifC13SetNow installs the driver's injectable clock on a failure cache
+// that Cache.New built from the configuration (New leaves Now at time.Now).
+func VerifC13SetNow(c *FailureCache, now func() time.Time) { c.now = now }
